@@ -688,7 +688,33 @@ impl PersistenceState {
         }
         let mut manifest = Manifest::load(&manifest_path)?;
         manifest.wal_segments.push(new_wal_name);
-        manifest.save(&manifest_path)?;
+        if let Err(save_err) = manifest.save(&manifest_path) {
+            // The save can fail after its rename (directory fsync), in which case the
+            // MANIFEST on disk already names the new segment as the last one while this
+            // writer stays on the old segment. WAL compaction treats the last listed segment
+            // as the active one and would delete the segment still being appended to,
+            // losing every write acknowledged afterwards. Put the previous list back.
+            manifest.wal_segments.pop();
+            if let Err(restore_err) = manifest.save(&manifest_path) {
+                // The invariant cannot be re-established: stop acknowledging writes.
+                wal_guard.poison();
+                return Err(save_err).with_context(|| {
+                    format!(
+                        "WAL rotation failed and the previous MANIFEST could not be restored ({})",
+                        restore_err
+                    )
+                });
+            }
+            drop(new_writer);
+            if let Err(e) = std::fs::remove_file(&new_wal_path) {
+                warn!(
+                    path = %new_wal_path.display(),
+                    error = %e,
+                    "failed to remove unused WAL segment after failed rotation"
+                );
+            }
+            return Err(save_err);
+        }
 
         *wal_guard = new_writer;
         info!(
